@@ -54,6 +54,28 @@ SEMANTICS
     statements that follow (code duplication, no merge).
   * Not modelled: float rounding, overflow to infinity, `int` width, aliasing, exceptions other than
     ZeroDivisionError.
+
+GLUE EXTENSION  (scalar index arithmetic between the kernels: translator/gen_kernels_glue.py; every item is off unless
+the generator asks for it, so the kernels of gen_kernels.py are translated exactly as before)
+
+  * parameters  `record`: an object (dict, Dataset) read only through *atoms* the generator declares — (source text,
+                Lean parameter, type), e.g. `roi["col"]["first"]`, `roi["margins"][0]`, `int(img_left.sizes["col"])`:
+                every occurrence of that text (after `ast.unparse`) is the parameter, any other use of the object is
+                refused; `opaque`: a parameter that is never read (`self`).
+  * statements  `raise E("message")` for a declared exception name `E`: the function returns
+                `PyExpr.PyOut.raised "E"` (the result type is then `PyOut`, a tested zero divisor being
+                `raised "ZeroDivisionError"`); `p = (e0, …, ek)` for a local that is *always* assigned a tuple display of
+                that length: all elements are evaluated with the old bindings, then bound to the components `p0 … pk`;
+                they are read as `p[<int literal>]` and may be reassigned under `if` (merged component-wise).
+  * return      nested tuple displays, tuple locals and a declared constructor call (`Window(a, b, c, d)`) are
+                flattened into one Lean tuple; the shape (`((_, _), (_, _))`, `Window(_, _, _, _)`) is recorded in the
+                kernel and must be the same on every return.  A constructor is declared with what it validates itself
+                (rasterio's `Window`: width and height must not be negative, else ValueError — read in the library's
+                source, cross-checked against the real function on every run): that test is part of the translation and
+                raises `"Window: ValueError"`, told apart from a `raise ValueError` of the function itself.
+  * expressions `ceil(e)` / `floor(e)` (names bound by `from math import …`, checked by the generator) and `int(e)`
+                on an `int` (identity) or a not-NaN float (`Rat.ceil` / `Rat.floor` / truncation towards zero; the
+                result is an `int`, as in Python 3); refused on a float that may be NaN (it would raise).
 """
 from __future__ import annotations
 
@@ -146,10 +168,18 @@ class CheckDiv:
     body: object
 
 
+@dataclass
+class Raise:
+    """`raise <exc>(...)`: the function ends with this exception (glue extension, see GLUE EXTENSION below)"""
+    exc: str
+
+
 @dataclass(frozen=True)
 class Param:
     """a parameter as the generator declares it: kind in {val, rat, int, bool, str} or 'array' with the element
-    types of its (fixed) cells"""
+    types of its (fixed) cells; glue extension: 'record' (an object read only through the declared atoms: cells =
+    ((source text, Lean parameter, type), …), e.g. `roi["col"]["first"]`, `int(img_left.sizes["col"])`) and 'opaque'
+    (a parameter that is never read, e.g. `self`)"""
     name: str
     kind: str
     cells: Tuple[str, ...] = ()
@@ -166,6 +196,8 @@ class Kernel:
     partial: bool  # a tested division exists
     source: str = ""
     notes: List[str] = field(default_factory=list)
+    raises: bool = False  # a `raise` statement exists: the result is a `PyExpr.PyOut`
+    ret_shape: str = "_"  # nesting of the returned value, e.g. `((_, _), (_, _))` or `Window(_, _, _, _)` (flattened in Lean)
 
 
 @dataclass
@@ -221,7 +253,18 @@ class Translator:
     source tree); `numpy_names`: the local names bound to the numpy module."""
 
     def __init__(self, fn: ast.FunctionDef, lean_name: str, params: Sequence[Param], consts=None,
-                 numpy_names=("np",), source_text: Optional[str] = None):
+                 numpy_names=("np",), source_text: Optional[str] = None, exceptions=(), constructors=None,
+                 math_names=None):
+        # glue extension: `exceptions` = names that may be raised (`raise ValueError("…")`), `constructors` = {local name:
+        # arity} of calls accepted as the returned value (`Window(a, b, c, d)`, returned as the tuple of its arguments),
+        # `math_names` = {local name: "ceil" | "floor"} bound by `from math import …` (all checked by the generator)
+        self.exceptions = set(exceptions)
+        self.constructors = dict(constructors or {})
+        self.math_names = dict(math_names or {})
+        self.tuple_locals: Dict[str, int] = {}
+        self.raises = False
+        self.ctor_checks: List[Tuple[Ex, str]] = []
+        self.ret_shapes: List[str] = []
         self.fn = fn
         self.lean_name = lean_name
         self.params = list(params)
@@ -259,12 +302,27 @@ class Translator:
             elif p.kind in (VAL, RAT, INT, BOOL, STR):
                 env[p.name] = Binding(lean_ident(p.name), p.kind)
                 lean_params.append((lean_ident(p.name), p.kind))
+            elif p.kind == "record":
+                for text, lean, ty in p.cells:
+                    if ty not in (VAL, RAT, INT, BOOL):
+                        raise Unsupported(f"{fn.name}: atom `{text}` of unknown type {ty}")
+                    node = ast.parse(text, mode="eval").body
+                    if not any(isinstance(x, ast.Name) and x.id == p.name for x in ast.walk(node)):
+                        raise Unsupported(f"{fn.name}: atom `{text}` does not read the parameter `{p.name}`")
+                    self.atoms[src(node)] = Binding(lean_ident(lean), ty)
+                    lean_params.append((lean_ident(lean), ty))
+                    self.reserved.add(lean)
+            elif p.kind == "opaque":
+                pass  # never read: any use is an unknown name
             else:
                 raise Unsupported(f"{fn.name}: unknown parameter kind {p.kind}")
         if len({n for n, _ in lean_params}) != len(lean_params):
             raise Unsupported(f"{fn.name}: parameter names collide once flattened")
         assigned = self.assigned_names(fn.body)
+        self.tuple_locals = self.scan_tuple_locals(fn, assigned, {n for n, _ in lean_params})
         for n in assigned:
+            if n == "int" or n in self.math_names or n in self.constructors or n in self.exceptions:
+                raise Unsupported(f"{fn.name}: the local `{n}` shadows a name the translator gives a meaning to")
             if n in BUILTINS or n in self.numpy_names or n.split(".")[0] in {c.split(".")[0] for c in self.consts}:
                 raise Unsupported(f"{fn.name}: the local `{n}` shadows a name the translator gives a meaning to")
             if n in self.reserved or n.startswith("pyDiv"):
@@ -280,6 +338,8 @@ class Translator:
         arity = {len(r.values) for r in self.rets}
         if len(arity) != 1:
             raise Unsupported(f"{fn.name}: return statements of different arities {sorted(arity)}")
+        if len(set(self.ret_shapes)) != 1:
+            raise Unsupported(f"{fn.name}: return statements of different shapes {sorted(set(self.ret_shapes))}")
         n = arity.pop()
         ret_types = []
         for i in range(n):
@@ -290,7 +350,120 @@ class Translator:
         for r in self.rets:
             r.values = [cast(v, ty) for v, ty in zip(r.values, ret_types)]
         return Kernel(fn.name, self.lean_name, self.params, lean_params, tree, ret_types, self.partial,
-                      notes=self.notes)
+                      notes=self.notes, raises=self.raises, ret_shape=self.ret_shapes[0])
+
+    # ---- glue extension: tuple-valued locals, `raise`, constructor / nested-tuple returns
+    def scan_tuple_locals(self, fn, assigned, taken) -> Dict[str, int]:
+        """locals that are always assigned a tuple display of one fixed length: `p = (a, b)`.  They live as their
+        components (`p[0]` -> Lean `p0`, …) and are read through literal subscripts or returned whole."""
+        arity: Dict[str, set] = {}
+        for node in ast.walk(fn):
+            if isinstance(node, ast.Assign) and len(node.targets) == 1 and isinstance(node.targets[0], ast.Name):
+                k = len(node.value.elts) if isinstance(node.value, ast.Tuple) else None
+                arity.setdefault(node.targets[0].id, set()).add(k)
+            elif isinstance(node, (ast.AnnAssign, ast.AugAssign)) and isinstance(node.target, ast.Name):
+                arity.setdefault(node.target.id, set()).add(None)
+        out = {}
+        for n, ks in arity.items():
+            if ks == {None}:
+                continue
+            if len(ks) != 1 or None in ks:
+                raise Unsupported(f"{fn.name}: the local `{n}` is a tuple on some assignments only / of varying length")
+            k = ks.pop()
+            if k == 0:
+                raise Unsupported(f"{fn.name}: the local `{n}` is an empty tuple")
+            for i in range(k):
+                if f"{n}{i}" in assigned or f"{n}{i}" in taken or any(p.name == f"{n}{i}" for p in self.params):
+                    raise Unsupported(f"{fn.name}: component name `{n}{i}` of the tuple local `{n}` collides")
+            out[n] = k
+        return out
+
+    def local_ident(self, key: str) -> str:
+        """Lean name of a local: `x` -> x, component `p[1]` of a tuple local -> p1"""
+        if key.endswith("]") and "[" in key:
+            n, i = key[:-1].split("[")
+            return lean_ident(f"{n}{i}")
+        return lean_ident(key)
+
+    def expand_names(self, names: List[str]) -> List[str]:
+        out = []
+        for n in names:
+            if n in self.tuple_locals:
+                out += [f"{n}[{i}]" for i in range(self.tuple_locals[n])]
+            else:
+                out.append(n)
+        return out
+
+    def mentions(self, e: Ex, lean: str) -> bool:
+        return (e.op == "var" and e.aux == lean) or any(self.mentions(x, lean) for x in e.args)
+
+    def tuple_assign(self, name, value, rest, env, facts, cont, merge_names):
+        """`p = (e0, …)`: every element is evaluated with the old bindings, then the components are bound"""
+        if not isinstance(value, ast.Tuple) or len(value.elts) != self.tuple_locals[name]:
+            raise TranslatorBug("tuple local without a tuple display")
+        mark = len(self.pending)
+        es = [self.expr(v, env, facts) for v in value.elts]
+        for e in es:
+            if e.ty not in NUMERIC + (BOOL,):
+                raise Unsupported(f"{self.fn.name}: a {e.ty} in the tuple local `{name}`")
+        keys = [f"{name}[{i}]" for i in range(len(es))]
+        leans = [self.local_ident(k) for k in keys]
+        direct = not any(self.mentions(es[j], leans[i]) for j in range(len(es)) for i in range(j))
+        env2 = dict(env)
+        for k, ln, e in zip(keys, leans, es):
+            env2[k] = Binding(ln, e.ty)
+        facts2 = frozenset(f for f in facts if f not in keys)
+        body = self.stmts(rest, env2, facts2, cont, merge_names)
+        if direct:
+            for ln, e in reversed(list(zip(leans, es))):
+                body = Let(ln, e, body)
+        else:  # an element reads a component bound before it: go through temporaries
+            tmps = [f"pyTup{i}" for i in range(len(es))]
+            for ln, t, e in reversed(list(zip(leans, tmps, es))):
+                body = Let(ln, Ex("var", e.ty, (), t), body)
+            for t, e in reversed(list(zip(tmps, es))):
+                body = Let(t, e, body)
+        return self.wrap_pending(body, mark)
+
+    def return_values(self, node, env, facts) -> Tuple[List[Ex], str]:
+        """the returned value flattened, and its shape: nested tuple displays, tuple locals and an accepted
+        constructor call are opened, anything else is one expression"""
+        if isinstance(node, ast.Tuple):
+            parts = [self.return_values(x, env, facts) for x in node.elts]
+            return [v for vs, _ in parts for v in vs], "(" + ", ".join(sh for _, sh in parts) + ")"
+        if isinstance(node, ast.Name) and node.id in self.tuple_locals:
+            keys = [f"{node.id}[{i}]" for i in range(self.tuple_locals[node.id])]
+            for k in keys:
+                if k not in env:
+                    raise Unsupported(f"{self.fn.name}: the tuple local `{node.id}` is returned before it is assigned")
+            return [self.var(env[k]) for k in keys], "(" + ", ".join("_" for _ in keys) + ")"
+        if isinstance(node, ast.Call) and isinstance(node.func, ast.Name) and node.func.id in self.constructors:
+            spec = self.constructors[node.func.id]
+            arity, nonneg, exc = spec if isinstance(spec, tuple) else (spec, (), None)
+            if node.keywords or any(isinstance(a, ast.Starred) for a in node.args) or len(node.args) != arity:
+                raise Unsupported(f"{self.fn.name}: `{src(node)}`: the constructor takes {arity} positional arguments")
+            args = [self.expr(a, env, facts) for a in node.args]
+            # what the constructor itself checks (declared by the generator from the library's source): the listed
+            # arguments must not be negative, or it raises `exc` — recorded as "<constructor>: <exception>"
+            for i in nonneg:
+                if args[i].ty not in NUMERIC:
+                    raise Unsupported(f"{self.fn.name}: `{src(node)}`: argument {i} is a {args[i].ty}")
+                zero = cast(Ex("lit", INT, (), Fraction(0)), args[i].ty)
+                self.ctor_checks.append((self.mk_cmp("lt", args[i], zero), f"{node.func.id}: {exc}"))
+            return args, node.func.id + "(" + ", ".join("_" for _ in node.args) + ")"
+        return [self.expr(node, env, facts)], "_"
+
+    def raise_name(self, st: ast.Raise) -> str:
+        if st.cause is not None or st.exc is None:
+            raise Unsupported(f"{self.fn.name}: `{src(st)}` (only `raise Name(\"message\")`)")
+        exc = st.exc
+        if isinstance(exc, ast.Call):
+            if exc.keywords or not all(isinstance(a, ast.Constant) and isinstance(a.value, str) for a in exc.args):
+                raise Unsupported(f"{self.fn.name}: `{src(st)}`: the arguments of the exception are not string literals")
+            exc = exc.func
+        if not (isinstance(exc, ast.Name) and exc.id in self.exceptions):
+            raise Unsupported(f"{self.fn.name}: `{src(st)}`: exception outside the declared ones {sorted(self.exceptions)}")
+        return exc.id
 
     @staticmethod
     def assigned_names(stmts) -> List[str]:
@@ -314,7 +487,7 @@ class Translator:
 
     @staticmethod
     def contains_return(stmts) -> bool:
-        return any(isinstance(n, ast.Return) for st in stmts for n in ast.walk(st))
+        return any(isinstance(n, (ast.Return, ast.Raise)) for st in stmts for n in ast.walk(st))
 
     # ---- statements
     def wrap_pending(self, tree, mark: int):
@@ -362,6 +535,8 @@ class Translator:
                 value = ast.BinOp(left=ast.Name(id=target.id, ctx=ast.Load()), op=st.op, right=st.value)
             if not isinstance(target, ast.Name):
                 raise Unsupported(f"{self.fn.name}: assignment target `{src(target)}` is not a local name")
+            if target.id in self.tuple_locals:
+                return self.tuple_assign(target.id, value, rest, env, facts, cont, merge_names)
             mark = len(self.pending)
             e = self.expr(value, env, facts)
             if e.ty == STR:
@@ -382,17 +557,29 @@ class Translator:
                 raise Unsupported(f"{self.fn.name}: statement after `return`")
             if st.value is None:
                 raise Unsupported(f"{self.fn.name}: `return` without a value")
-            elts = st.value.elts if isinstance(st.value, ast.Tuple) else [st.value]
             mark = len(self.pending)
-            vals = [self.expr(v, env, facts) for v in elts]
+            self.ctor_checks = []
+            vals, shape = self.return_values(st.value, env, facts)
+            self.ret_shapes.append(shape)
             for v in vals:
                 if v.ty not in NUMERIC + (BOOL,):
                     raise Unsupported(f"{self.fn.name}: a {v.ty} is returned")
             r = Ret(vals)
             self.rets.append(r)
-            return self.wrap_pending(r, mark)
+            tree = r
+            for cond, exc in reversed(self.ctor_checks):  # the constructor's own validation, first argument first
+                self.raises = True
+                tree = If(cond, Raise(exc), tree)
+            return self.wrap_pending(tree, mark)
         if isinstance(st, ast.If):
             return self.if_stmt(st, rest, env, facts, cont, merge_names)
+        if isinstance(st, ast.Raise) and self.exceptions:
+            if self.pure_mode:
+                raise _NeedsDuplication()
+            if rest:
+                raise Unsupported(f"{self.fn.name}: statement after `raise`")
+            self.raises = True
+            return Raise(self.raise_name(st))
         raise Unsupported(f"{self.fn.name}: statement `{type(st).__name__}` is outside the subset")
 
     def if_stmt(self, st, rest, env, facts, cont, merge_names):
@@ -444,7 +631,7 @@ class Translator:
         c = self.expr(st.test, env, facts)  # evaluated unconditionally: its divisor tests are hoisted before the `if`
         if c.ty != BOOL:
             raise Unsupported(f"{self.fn.name}: the test `{src(st.test)}` is not a boolean (no truthiness of numbers)")
-        names = self.assigned_names(list(st.body) + list(st.orelse))
+        names = self.expand_names(self.assigned_names(list(st.body) + list(st.orelse)))
         for n in names:
             if n in env and env[n].ty == "nanconst":
                 raise _NeedsDuplication()
@@ -463,12 +650,12 @@ class Translator:
             y.values = [cast(v, tt) for v, tt in zip(y.values, types)]
         env2 = dict(env)
         for n, tt in zip(names, types):
-            env2[n] = Binding(lean_ident(n), tt)
+            env2[n] = Binding(self.local_ident(n), tt)
         facts2 = frozenset(f for f in facts if f not in names)
         body = self.stmts(rest, env2, facts2, cont, merge_names)
         if not names:
             return self.wrap_pending(body, mark)
-        node = Merge([(lean_ident(n), tt) for n, tt in zip(names, types)], c, t, e, body)
+        node = Merge([(self.local_ident(n), tt) for n, tt in zip(names, types)], c, t, e, body)
         return self.wrap_pending(node, mark)
 
     @staticmethod
@@ -501,7 +688,7 @@ class Translator:
 
     def subscript_key(self, node: ast.Subscript) -> Optional[str]:
         p = next((p for p in self.params if p.kind == "array" and p.name == node.value.id), None)
-        if p is None:
+        if p is None and node.value.id not in self.tuple_locals:
             return None
         idx = node.slice
         if isinstance(idx, ast.UnaryOp) and isinstance(idx.op, ast.USub) and isinstance(idx.operand, ast.Constant):
@@ -513,10 +700,10 @@ class Translator:
             i = idx.value
         else:
             return None
-        n = len(p.cells)
+        n = len(p.cells) if p is not None else self.tuple_locals[node.value.id]
         if i < -n or i >= n:
-            raise Unsupported(f"{self.fn.name}: `{src(node)}` is outside the {n} cells of `{p.name}`")
-        return f"{p.name}[{i % n}]"
+            raise Unsupported(f"{self.fn.name}: `{src(node)}` is outside the {n} cells of `{node.value.id}`")
+        return f"{node.value.id}[{i % n}]"
 
     def is_isnan_call(self, node) -> bool:
         return (isinstance(node, ast.Call) and isinstance(node.func, ast.Attribute) and node.func.attr == "isnan"
@@ -841,12 +1028,25 @@ class Translator:
             for a in args[1:]:
                 out = Ex(name, ty, (out, cast(a, ty)))
             return out
+        # glue extension: `int(e)`, and `ceil` / `floor` bound by `from math import …` (checked by the generator)
+        if isinstance(node.func, ast.Name) and (node.func.id == "int" or node.func.id in self.math_names):
+            what = "trunc" if node.func.id == "int" else self.math_names[node.func.id]
+            if what not in ("trunc", "ceil", "floor"):
+                raise Unsupported(f"{fn}: `{src(node)}`: math function outside the subset")
+            if len(node.args) != 1 or isinstance(node.args[0], ast.Starred):
+                raise Unsupported(f"{fn}: `{src(node)}` takes one argument")
+            e = self.expr(node.args[0], env, facts)
+            if e.ty == INT:
+                return e  # int / math.ceil / math.floor of an int is that int
+            if e.ty == RAT:
+                return Ex(what, INT, (e,))  # int() truncates towards zero; math.ceil / math.floor return an int
+            raise Unsupported(f"{fn}: `{src(node)}` on a {e.ty} (a NaN would raise ValueError; a bool / str is not a number)")
         raise Unsupported(f"{fn}: call `{src(node)}` is outside the subset")
 
 
 def translate_function(fn: ast.FunctionDef, lean_name: str, params: Sequence[Param], consts=None, numpy_names=("np",),
-                       source_text: Optional[str] = None) -> Kernel:
-    k = Translator(fn, lean_name, params, consts, numpy_names, source_text).translate()
+                       source_text: Optional[str] = None, **glue) -> Kernel:
+    k = Translator(fn, lean_name, params, consts, numpy_names, source_text, **glue).translate()
     try:
         k.source = ast.unparse(fn)
     except Exception:  # pylint: disable=broad-except
@@ -855,7 +1055,8 @@ def translate_function(fn: ast.FunctionDef, lean_name: str, params: Sequence[Par
 
 
 def translate_expression(node: ast.expr, lean_name: str, atoms: Sequence[Tuple[str, str, str]], consts=None,
-                         numpy_names=("np",), source_text: Optional[str] = None, py_name: str = "<expression>") -> Kernel:
+                         numpy_names=("np",), source_text: Optional[str] = None, py_name: str = "<expression>",
+                         **glue) -> Kernel:
     """One expression (e.g. the test of an `if` inside a loop that is not itself in the subset) as a kernel.
     `atoms`: (source text of a sub-expression, Lean parameter name, type) — every occurrence of that text (compared
     after `ast.unparse`) is the parameter; all of them become parameters of the definition, in this order, used or not
@@ -863,7 +1064,7 @@ def translate_expression(node: ast.expr, lean_name: str, atoms: Sequence[Tuple[s
     Any other name is refused."""
     dummy = ast.FunctionDef(name=py_name, args=ast.arguments(posonlyargs=[], args=[], kwonlyargs=[], kw_defaults=[], defaults=[]),
                             body=[], decorator_list=[])
-    t = Translator(dummy, lean_name, [], consts, numpy_names, source_text)
+    t = Translator(dummy, lean_name, [], consts, numpy_names, source_text, **glue)
     params, lean_params = [], []
     for text, lean, ty in atoms:
         if ty not in (VAL, RAT, INT, BOOL, STR):
@@ -957,6 +1158,8 @@ def lean_expr(e: Ex) -> str:
         return f"(Val.isNan {a[0]})"
     if e.op == "streq":
         return f"({a[0]} == {lean_str(e.aux)})"
+    if e.op in ("ceil", "floor", "trunc"):
+        return f"(PyExpr.r{e.op} {a[0]})"
     raise TranslatorBug(f"cannot render {e.op}")
 
 
@@ -974,13 +1177,21 @@ def lean_tree(tree, ind: str, partial: bool) -> List[str]:
     """lines of the Lean term for `tree`; `partial`: the result is wrapped in `PyRes`"""
     if isinstance(tree, Ret):
         v = lean_tuple(tree.values)
+        if partial == "out":
+            return [ind + f"PyExpr.PyOut.ok {v}"]
         return [ind + (f"PyExpr.PyRes.ok {v}" if partial else v)]
+    if isinstance(tree, Raise):
+        if partial != "out":
+            raise TranslatorBug("a raise in a kernel that is not rendered as PyOut")
+        return [ind + f"PyExpr.PyOut.raised {lean_str(tree.exc)}"]
     if isinstance(tree, Yield):
         return [ind + lean_tuple(tree.values)]
     if isinstance(tree, Let):
         return [f"{ind}let {tree.name} : {LEAN_TYPE[tree.value.ty]} := {lean_expr(tree.value)}"] + lean_tree(tree.body, ind, partial)
     if isinstance(tree, CheckDiv):
         test = f"PyExpr.visZero {tree.name}" if tree.ty == VAL else f"{tree.name} = 0"
+        if partial == "out":
+            return [f'{ind}if {test} then PyExpr.PyOut.raised "ZeroDivisionError" else'] + lean_tree(tree.body, ind, partial)
         return [f"{ind}if {test} then PyExpr.PyRes.zeroDivision else"] + lean_tree(tree.body, ind, partial)
     if isinstance(tree, If):
         return ([f"{ind}if {lean_expr(tree.cond)} then"] + lean_tree(tree.then, ind + "  ", partial)
@@ -1014,9 +1225,13 @@ def render_lean(k: Kernel, always_partial: bool = True) -> str:
     """the Lean definition of a kernel (text, no namespace).  `always_partial`: wrap the result in `PyRes` even
     when no division is tested, so that the statement of the equality theorem does not depend on it."""
     partial = k.partial or always_partial
+    if k.raises:
+        partial = "out"  # a function with a `raise`: value or the name of the exception (ZeroDivisionError included)
     params = " ".join(f"({n} : {LEAN_TYPE[t]})" for n, t in k.lean_params)
     rt = lean_tuple_type(k.ret_types)
-    if partial:
+    if partial == "out":
+        rt = f"PyExpr.PyOut ({rt})"
+    elif partial:
         rt = f"PyExpr.PyRes ({rt})"
     lines = [f"def {k.lean_name} {params} : {rt} :="]
     lines += lean_tree(k.tree, "  ", partial)
@@ -1031,6 +1246,10 @@ NAN = None  # a `val` is a Fraction or NAN
 
 class PyZeroDivision(Exception):
     pass
+
+
+class PyRaised(Exception):
+    """a translated `raise`: args[0] is the name of the exception"""
 
 
 def ev(e: Ex, env):
@@ -1088,6 +1307,12 @@ def ev(e: Ex, env):
         return a[0] is NAN
     if e.op == "streq":
         return a[0] == e.aux
+    if e.op in ("ceil", "floor", "trunc"):
+        q = Fraction(a[0])
+        fl = q.numerator // q.denominator  # floor (Python's // on ints)
+        if e.op == "floor" or q.denominator == 1:
+            return fl
+        return fl + 1 if (e.op == "ceil" or q < 0) else fl  # trunc: towards zero
     raise TranslatorBug(f"cannot evaluate {e.op} ({t})")
 
 
@@ -1095,6 +1320,8 @@ def run_tree(tree, env):
     while True:
         if isinstance(tree, (Ret, Yield)):
             return tuple(ev(v, env) for v in tree.values)
+        if isinstance(tree, Raise):
+            raise PyRaised(tree.exc)
         if isinstance(tree, Let):
             env = dict(env)
             env[tree.name] = ev(tree.value, env)
@@ -1126,7 +1353,9 @@ def evaluate(k: Kernel, *args):
     env = {}
     it = iter(k.lean_params)
     for p, v in zip(k.params, args):
-        if p.kind == "array":
+        if p.kind == "opaque":
+            continue
+        if p.kind in ("array", "record"):  # a record takes the values of its atoms, in the declared order
             if len(v) != len(p.cells):
                 raise TypeError(f"{p.name} must have {len(p.cells)} cells")
             for cell in v:
@@ -1139,6 +1368,8 @@ def evaluate(k: Kernel, *args):
         return "ok", run_tree(k.tree, env)
     except PyZeroDivision:
         return "ZeroDivisionError", None
+    except PyRaised as exc:
+        return exc.args[0], None
 
 
 def conv(v, ty):
